@@ -833,3 +833,47 @@ Section System.
     - intros s0 o s' out W E. pose proof (step_correct s0 o W) as H. rewrite E in H. tauto.
   Qed.
 End System.
+
+(** ** clear (used by C15) *)
+
+Fixpoint no_access_after_call (evs : list ev) : Prop :=
+  match evs with
+  | [] => True
+  | EvCall n :: r => ~ In (EvRead n) r /\ ~ In (EvCall n) r /\ no_access_after_call r
+  | _ :: r => no_access_after_call r
+  end.
+
+Lemma clear_log sl : fst (clear sl) = items sl.
+Proof. reflexivity. Qed.
+
+Lemma clear_result_init sl : snd (clear sl) = sl_init.
+Proof. reflexivity. Qed.
+
+Lemma in_clear_events_read x l :
+  In (EvRead x) (flat_map (fun y => [EvRead y; EvCall y]) l) -> In x l.
+Proof.
+  induction l as [|y l IH]; simpl; auto. intros [E|[E|H]]; try discriminate; auto.
+  inversion E; auto.
+Qed.
+
+Lemma in_clear_events_call x l :
+  In (EvCall x) (flat_map (fun y => [EvRead y; EvCall y]) l) -> In x l.
+Proof.
+  induction l as [|y l IH]; simpl; auto. intros [E|[E|H]]; try discriminate; auto.
+  inversion E; auto.
+Qed.
+
+(** every node is read (its successor link) before its callback and never
+    touched afterwards; every node gets exactly one callback *)
+Lemma clear_no_access_after_callback sl :
+  NoDup (items sl) -> no_access_after_call (clear_events sl).
+Proof.
+  unfold clear_events. induction (items sl) as [|x l IH]; simpl; auto.
+  intros H. inversion H as [|? ? Hx Hl]; subst. repeat split; auto.
+  - intros Hin. apply Hx. apply in_clear_events_read; auto.
+  - intros Hin. apply Hx. apply in_clear_events_call; auto.
+Qed.
+
+Lemma clear_calls_each_once sl :
+  map (fun x => EvCall x) (items sl) = filter (fun e => match e with EvCall _ => true | _ => false end) (clear_events sl).
+Proof. unfold clear_events. induction (items sl) as [|x l IH]; simpl; auto. rewrite IH; auto. Qed.
